@@ -889,6 +889,26 @@ package catalog
 //@   unclaimed #requires@Update see AddResponseBody
 //@   unclaimed #requires@String see AddHTTPMethod
 
+// the JSON-RPC singletons: a second Params / Result under one method
+//@ pred rpcKnown(c *Catalog, d directive.Directive) = has(c.Interactions.data, box(JsonRpcInteractionId, rpcIdOf(d))) && typeis(c.Interactions.data[box(JsonRpcInteractionId, rpcIdOf(d))], *JsonRpcInteraction)
+//@ pred rpcOf(c *Catalog, d directive.Directive) = asptr(*JsonRpcInteraction, ifaceptr(c.Interactions.data[box(JsonRpcInteractionId, rpcIdOf(d))]))
+//@ func (*Catalog).AddJsonRpcParams
+//@   tag C11 C01
+//@   requires c != nil && DirWFv(d) && c.Interactions != nil && RepInvInteractions(c.Interactions) && c.Interactions.mx == 0
+//@   ensures [C11] old(rpcKnown(c, d) && rpcOf(c, d).Params != nil) ==> !isnil(ret) && unchanged()
+//@   unclaimed #type-assert see AddResponseBody
+//@   unclaimed #nil-deref see AddResponseBody
+//@   unclaimed #requires@Update see AddResponseBody
+//@   unclaimed #requires@String see AddHTTPMethod
+//@ func (*Catalog).AddJsonRpcResult
+//@   tag C11 C01
+//@   requires c != nil && DirWFv(d) && c.Interactions != nil && RepInvInteractions(c.Interactions) && c.Interactions.mx == 0
+//@   ensures [C11] old(rpcKnown(c, d) && rpcOf(c, d).Result != nil) ==> !isnil(ret) && unchanged()
+//@   unclaimed #type-assert see AddResponseBody
+//@   unclaimed #nil-deref see AddResponseBody
+//@   unclaimed #requires@Update see AddResponseBody
+//@   unclaimed #requires@String see AddHTTPMethod
+
 // ---------------------------------------------------------------- serialisation entry points (C09)
 // Both forms are exactly the bytes encoding/json produced for the catalog (jsonOf / jsonIndentOf, deps.spec): nothing
 // rewrites the output afterwards, so the indented form is valid JSON and denotes the same value as the compact one
